@@ -1200,8 +1200,12 @@ class ModelBuilder:
                     return None
             return current  # type: ignore[return-value]
         else:
-            # Search from project root
-            for task in project.tasks:
+            # Search from project root: a top-level task wins over a nested task
+            # that merely has the same local id
+            candidates = [t for t in project.tasks if t.parent is None] + [
+                t for t in project.tasks if t.parent is not None
+            ]
+            for task in candidates:
                 if task.id == parts[0]:
                     if len(parts) == 1:
                         return task  # type: ignore[return-value]
